@@ -331,8 +331,36 @@ func failedCallEscapes(fn *ssa.Function, call InstrPred, calleeName string) []*s
 					return
 				}
 			}
+			// a test of the failed call's error — directly, through the phis of this path, or through a
+			// cell that carries it — is followed on its non-nil edge only
+			nonNilOnly := -1
+			if iff, ok := b.Instrs[len(b.Instrs)-1].(*ssa.If); ok {
+				if x, trueNonNil, isTest := condNilTest(iff.Cond); isTest && isErrorType(x.Type()) {
+					carried := false
+					for _, cand := range []ssa.Value{stripConv(x), stripConv(testedValue(x))} {
+						v := stripConv(resolveAlong(cand, path))
+						if isErr(v) {
+							carried = true
+						}
+						if u, isU := v.(*ssa.UnOp); isU {
+							if al := resolveCell(u.X); al != nil && cur[al] {
+								carried = true
+							}
+						}
+					}
+					if carried {
+						nonNilOnly = 1
+						if trueNonNil {
+							nonNilOnly = 0
+						}
+					}
+				}
+			}
 			for si, s := range b.Succs {
 				if !edges(b, si) || onPath[s] {
+					continue
+				}
+				if nonNilOnly >= 0 && si != nonNilOnly {
 					continue
 				}
 				dfs(s, 0, cur)
